@@ -134,6 +134,7 @@ func runC04(w *World) {
 		return
 	}
 	var causes []string
+	stalls := 0
 	for k := 0; k < nsess; k++ {
 		c := s.E.OpenConn(p, dir, 10*time.Minute)
 		if c == nil {
@@ -169,6 +170,29 @@ func runC04(w *World) {
 		life := time.Duration(w.Range(0, 12000, "lifems")) * time.Millisecond
 		end := w.Now() + life
 		stop := func() bool { return w.Now() >= end }
+		// back-pressure: the remote stops reading for a while (its socket buffers take
+		// a few more bytes, then corebgp's writes block), then reads on. Every message
+		// must still arrive whole and exactly once; calls may block meanwhile.
+		if w.Chance(1, 3, "remote-stalls") {
+			maxStall := 20 * time.Second // hold time 0: nothing expires
+			if neg := p.Speaker.Negotiated(o); neg > 0 {
+				// stay well inside the hold time: while its writes block corebgp does not
+				// look at its timers, and the remote itself keeps sending on time
+				maxStall = neg / 2
+			}
+			stalls++
+			w.Go("remote-stalls", func() {
+				defer func() { stalls-- }()
+				w.Sleep(time.Duration(w.Range(0, int(life/time.Millisecond)+1, "stallat")) * time.Millisecond)
+				if c.LocalClosed() || c.RemoteClosed() {
+					return
+				}
+				c.StallWrites(Pick(w, "stallwindow", 0, 7, 19, 25, 100, 2000, 5000))
+				w.Sleep(time.Duration(w.Range(1, int(maxStall/time.Millisecond), "stallms")) * time.Millisecond)
+				c.ResumeWrites()
+				w.Probe("remote-stalled-and-resumed")
+			})
+		}
 		// a few UPDATEs from the remote to trigger the handler
 		w.Go("remote-updates", func() {
 			for i, n := 0, w.Draw(4, "nrupd"); i < n && !c.LocalClosed() && !c.RemoteClosed(); i++ {
@@ -203,6 +227,8 @@ func runC04(w *World) {
 			w.WaitUntil("c04.down", time.Minute, func() bool { return p.Plug.IsDown() })
 		}
 	}
+	// (a Close while the remote is not reading waits for it: not this property's business)
+	w.WaitUntil("c04.stalls", time.Minute, func() bool { return stalls == 0 })
 	s.E.FinishRun()
 	w.WaitUntil("c04.writers", 5*time.Minute, func() bool { return writersAlive == 0 })
 	w.Quiesce()
@@ -229,8 +255,8 @@ func runC04(w *World) {
 	w.Sample["frames_per_connection"] = shape
 	for _, c := range w.Net.AllConns() {
 		c.mu.Lock()
-		m := c.Malformed
 		c.mu.Unlock()
+		m := c.StreamFault(true)
 		if m != "" {
 			w.Violate("C04/stream/malformed", "outbound stream of %s is not a concatenation of whole well-formed messages: %s", c, m)
 			return
@@ -241,7 +267,7 @@ func runC04(w *World) {
 			w.Violate("C04/writeupdate/never-returned", "WriteUpdate #%d by %s (session %d) never returned", c.n, c.writer, c.sess.N)
 			return
 		}
-		if c.retAt != c.invAt {
+		if c.retAt != c.invAt && !stalledDuring(c.sess.Conn, c.invAt, c.retAt) {
 			w.Violate("C04/writeupdate/blocked", "WriteUpdate #%d by %s blocked for %v of virtual time", c.n, c.writer, c.retAt-c.invAt)
 			return
 		}
@@ -329,4 +355,23 @@ func runC04(w *World) {
 		last[wk] = pi
 	}
 	_ = bytes.Equal
+}
+
+// stalledDuring reports whether the remote of c was not reading at some instant of [from, to].
+func stalledDuring(c *Conn, from, to time.Duration) bool {
+	if c == nil {
+		return false
+	}
+	c.mu.Lock()
+	defer c.mu.Unlock()
+	for i, at := range c.StallAt {
+		end := time.Duration(1<<62 - 1)
+		if i < len(c.ResumeAt) {
+			end = c.ResumeAt[i]
+		}
+		if at <= to && end >= from {
+			return true
+		}
+	}
+	return false
 }
